@@ -28,6 +28,7 @@ Print Assumptions wrap_iff.
    call is an atom or parenthesised; a conditional, lambda or walrus is parenthesised next to every operator *)
 Theorem pasted_operand_wraps : forall (e : expr) (operator s : string),
   stringify_ (S (expr_depth e)) e = Some s -> (String.eqb operator "." && is_int_literal e)%bool = false ->
+  String.eqb operator "{}" = false ->
   stringify e = s /\
   stringify_operand e operator = (if Nat.ltb (precedence e) (operand_precedence operator) then "(" ++ s ++ ")" else s)%string.
 Proof. exact stringify_operand_wraps. Qed.
@@ -40,17 +41,26 @@ Proof. exact operand_of_dot_is_atom_or_wrapped. Qed.
 Print Assumptions pasted_object_of_method_call.
 
 Theorem pasted_loose_operand : forall (e : expr) (operator s : string),
-  stringify_ (S (expr_depth e)) e = Some s -> (precedence e <= 2)%nat ->
+  stringify_ (S (expr_depth e)) e = Some s -> (precedence e <= 2)%nat -> String.eqb operator "{}" = false ->
   stringify_operand e operator = ("(" ++ s ++ ")")%string.
 Proof. exact loose_operand_always_wrapped. Qed.
 Print Assumptions pasted_loose_operand.
+
+(* inside an f-string field: parenthesised below `or`, and never directly after the opening brace *)
+Theorem pasted_field : forall (e : expr) (s : string),
+  stringify_ (S (expr_depth e)) e = Some s ->
+  let t := (if Nat.ltb (precedence e) 3 then "(" ++ s ++ ")" else s)%string in
+  stringify_operand e "{}" = (if starts_with_brace t then " " ++ t else t)%string.
+Proof. exact stringify_operand_field. Qed.
+Print Assumptions pasted_field.
 
 Example pasted_examples :
   stringify_operand (ECond (EName "c" "c") (EName "a" "a") (EName "b" "b")) "or" = "(a if c else b)"%string
   /\ stringify_operand (EOp "+" (EName "s" "s") (EName "t" "t")) "." = "(s + t)"%string
   /\ stringify_operand (EOp "+" (EName "s" "s") (EName "t" "t")) "==" = "s + t"%string
   /\ stringify_operand (EWalrus (EName "w" "w") (EName "n" "n")) "{}" = "(w := n)"%string
-  /\ stringify_operand (EInt 16) "." = "(16)"%string.
+  /\ stringify_operand (EInt 16) "." = "(16)"%string
+  /\ stringify_operand (ESet [EInt 1; EInt 2]) "{}" = " {1, 2}"%string.
 Proof. repeat split; reflexivity. Qed.
 Print Assumptions pasted_examples.
 
